@@ -828,13 +828,17 @@ func (pc *pathCtx) makeSlice(it *item, x *ssa.MakeSlice) bool {
 		it.fr.locals[x] = VSlice{Nil: False, Obj: id, Off: I64(0), Len: ln, Cap: cp, Bytes: true}
 		return true
 	}
-	n, ok := pc.concInt(it, cp, x)
-	if !ok {
-		return false
-	}
 	l, ok := pc.concInt(it, ln, x)
 	if !ok {
 		return false
+	}
+	var n int64
+	if c, isC := st.Conc(cp); isC {
+		n = c.Int()
+	} else {
+		// a symbolic capacity (recorded above as an allocation request) is modelled as
+		// cap == len: appends then reallocate, which own code cannot observe
+		n = l
 	}
 	if n > 4096 {
 		unsupported("make of %d generic elements at %s", n, siteOf(x))
